@@ -9,7 +9,7 @@
 * c_rule: the arms that tolerate an error (return Ok(())): do they push to ignored_rules and
   add a warning.
 """
-import re
+import re, os
 from tlib import *
 
 C2A = "parser/src/ast/cst2ast.rs"
@@ -106,6 +106,78 @@ def main():
     if not re.search(r"self\.rules\.push\(", crule):
         raise TranslateError("c_rule: self.rules.push( not found")
 
+    # ---- every place where cst2ast.rs produces BuilderError::Abort, classified
+    code = strip_comments(c2a)
+    # blank string literals (they contain braces)
+    # blank char literals first ('"', '\\', b'"'), then string literals
+    code_c = re.sub(r"b?'(?:\\.|[^'\\])'", lambda m: " " * len(m.group(0)), code)
+    code_b = re.sub(r'"(?:[^"\\]|\\.)*"', lambda m: '"' + " " * (len(m.group(0)) - 2) + '"', code_c)
+    sites = []
+    for m in re.finditer(r"BuilderError::Abort\b", code_b):
+        before = code_b[:m.start()]
+        after = code_b[m.end():m.end() + 12]
+        if re.match(r"\s*,?\s*$", code_b[m.end():code_b.find("\n", m.end())]) and re.search(r"enum\s+BuilderError\s*\{[^}]*$", before):
+            continue                                   # the enum declaration
+        if re.match(r"\)\s*=>", after):
+            continue                                   # a match arm `Err(BuilderError::Abort) =>`
+        fn = re.findall(r"\bfn\s+([a-z_0-9]+)\s*[<(]", before)
+        fn = fn[-1] if fn else "?"
+        # innermost enclosing block: scan backwards for the unmatched `{`
+        depth, i = 0, m.start() - 1
+        while i >= 0:
+            ch = code_b[i]
+            if ch == "}": depth += 1
+            elif ch == "{":
+                if depth == 0: break
+                depth -= 1
+            i -= 1
+        if i < 0: raise TranslateError(f"cst2ast.rs: no enclosing block for an Abort in fn {fn}")
+        blk = code_b[i + 1:m.start()]
+        # statements of that block itself (nested blocks removed)
+        flat, d = [], 0
+        for ch in blk:
+            if ch == "{": d += 1
+            elif ch == "}": d -= 1
+            elif d == 0: flat.append(ch)
+        flat = "".join(flat)
+        j = max(code_b.rfind(";", 0, i), code_b.rfind("}", 0, i), code_b.rfind("{", 0, i))
+        header = code_b[j + 1:i + 1]
+        # the pattern of an `if let PATTERN = ..` has braces of its own: look a little further back
+        header2 = code_b[max(0, i - 120):i + 1]
+        if re.search(r"self\s*\.\s*errors\s*\.\s*push\s*\(", flat):
+            cls = "APushedError"
+        elif re.search(r"Event::Begin\s*\{\s*kind:\s*ERROR", header + header2):
+            cls = "AErrorNode"
+        else:
+            cls = "AShapeMismatch"
+        sites.append((fn, cls))
+    if len(sites) < 5:
+        raise TranslateError("cst2ast.rs: fewer BuilderError::Abort sites than expected; classification lost")
+
+    # ---- the shape both sides rely on: the productions of the grammar and, per builder function, the
+    # sequence of begin/end/expect/peek-pattern/builder calls
+    import hashlib, gen_grammar
+    gen_grammar.main()
+    gtxt = open(os.path.join(GEN, "Grammar.v"), encoding="utf-8").read()
+    gm = re.search(r"Definition grammar \(n : nonterminal\) : prog nonterminal :=(.*?)\n  end\.", gtxt, re.S)
+    if not gm: raise TranslateError("Gen/Grammar.v: grammar definition not found")
+    productions = re.sub(r"\s+", " ", gm.group(1)).strip()
+    impl = code_b[code_b.index("const MAX_AST_DEPTH"):]
+    skel = []
+    fpos = [(m.start(), m.group(1)) for m in re.finditer(r"\bfn\s+([a-z_0-9]+)\s*[<(]", impl)]
+    for k, (st, name) in enumerate(fpos):
+        body = impl[st:fpos[k + 1][0] if k + 1 < len(fpos) else len(impl)]
+        items = re.findall(r"self\.(begin|end|expect)\(\s*([A-Z_0-9]+)\s*\)|Event::(Token|Begin|End)\s*\{\s*kind:\s*([A-Z_0-9|\s]+?)\s*[,}]|self\.([a-z_0-9]+)\(", body)
+        seq = []
+        for a, b_, c, d_, e in items:
+            if a: seq.append(f"{a}:{b_}")
+            elif c: seq.append(f"peek{c}:{re.sub(chr(92) + 's+', '', d_)}")
+            elif e not in ("begin", "end", "expect", "peek", "next", "recover", "get_source", "get_source_str", "consume_errors_and_trivia"): seq.append(f"call:{e}")
+        skel.append(name + "=" + ",".join(seq))
+    if len(skel) < 30: raise TranslateError("cst2ast.rs: builder functions not found")
+    shape_text = productions + "\n" + "\n".join(skel)
+    digest = int(hashlib.sha256(shape_text.encode()).hexdigest()[:15], 16)
+
     b = lambda x: "true" if x else "false"
     L = ["(* GENERATED by translate/gen_astarms.py from parser/src/ast/cst2ast.rs and\n   lib/src/compiler/mod.rs -- do not edit; regenerated on every check. *)",
          "From Coq Require Import List NArith Bool.\nImport ListNotations.\n",
@@ -124,7 +196,14 @@ def main():
     L.append(f"(* Compiler::c_items, `Item::Rule` arm, when c_rule returns Err *)\nDefinition c_items_err_pushes_ignored : bool := {b(err_ign)}.\nDefinition c_items_err_pushes_error : bool := {b(err_err)}.")
     L.append("(* Compiler::c_rule: arms that tolerate an error and return Ok(()): (pushes ignored_rules, adds a warning) *)")
     L.append("Definition c_rule_tolerated_arms : list (bool * bool) := [" + "; ".join(f"({b(x)}, {b(y)})" for x, y in tolerated) + "].")
+    L.append("\n(* every place where cst2ast.rs produces BuilderError::Abort: below an ERROR node of the CST, after\n   pushing an error, or because the CST does not have the shape the builder expects *)")
+    L.append("Inductive abort_class := AErrorNode | APushedError | AShapeMismatch.")
+    L.append("Definition abort_sites : list abort_class :=\n  [" + ";\n   ".join(f"{c} (* fn {f} *)" for f, c in sites) + "].")
+    L.append("\n(* digest of (grammar productions of Gen/Grammar.v, per builder function of cst2ast.rs the sequence of\n   begin/end/expect/peek patterns/calls): the two sides of the CST-shape agreement *)")
+    L.append(f"Definition cst_shape_digest : N := {digest}%N.")
     write_if_changed("AstBuilderArms.v", "\n".join(L) + "\n")
+    with open(os.path.join(GEN, "CstShape.txt"), "w", encoding="utf-8") as f:
+        f.write(shape_text + "\n")
 
 
 if __name__ == "__main__":
